@@ -441,3 +441,75 @@ LM('msuffix_head', [m2_, m_], z3.Implies(z3.And(msuffix(m2_, m_), MMp.is_('mcons
 LM('mset_same', [m_, kk, psi], z3.Implies(z3.And(mhas(m_, kk), mget(m_, kk) == psi), mset(m_, kk, psi) == m_), ind=m_, triggers=[mset(m_, kk, psi)], split_depth=1)
 for _n in ('expandmap_pset', 'pmwf_pset', 'expandmap_has', 'expandmap_get'):
     MAPL[_n] = LIB.get(_n)
+
+# --- building a dict from reversed(zip(keys, reversed(stack segment)))  (C14: the Instantiate case of the deserialiser) ---------------------
+ZIPL = {}
+
+
+def LZ(name, vars, stmt, **kw):
+    lm = Lemma(name, vars, stmt, **kw)
+    ZIPL[name] = lm
+    return lm
+
+
+pm_snoc = _rec_('pm_snoc', PMap, z3.IntSort(), PPat, PMap)          # append a binding at the END of the association list
+_zd = z3.Const('_zd', PMap)
+_zk = z3.Int('_zk')
+_zv = z3.Const('_zv', PPat)
+_def_(pm_snoc, [_zd, _zk, _zv], z3.If(PMp.is_('pnil', _zd), PMp.mk('pcons', _zk, _zv, PMp.mk('pnil')),
+                                      PMp.mk('pcons', PMp.get('pcons', 'pkey', _zd), PMp.get('pcons', 'pval', _zd), pm_snoc(PMp.get('pcons', 'ptl', _zd), _zk, _zv))), dec=0)
+# the dict python builds:  keys K = [k0, k1, ...] (as read), segment W (python list, head of the PTL = LAST element = pairs with k0);  insertion order is the reverse of the pairing order
+pmz = _rec_('pmz', IdL, PTL, PMap)
+_zK = z3.Const('_zK', IdL)
+_zW = z3.Const('_zW', PTL)
+_def_(pmz, [_zK, _zW], z3.If(z3.Or(IDL.is_('inil', _zK), PTLs.is_('ptnil', _zW)), PMp.mk('pnil'),
+                             pm_snoc(pmz(IDL.get('icons', 'itl', _zK), PTLs.get('ptcons', 'pttl', _zW)), IDL.get('icons', 'ihd', _zK),
+                                     PTR.get('PyPat', 'pypat', PTLs.get('ptcons', 'pthd', _zW)))), dec=0)
+mz = _rec_('mz', IdL, ML, MMap)                        # the same on the machine side
+_zL = z3.Const('_zL', ML)
+_def_(mz, [_zK, _zL], z3.If(z3.Or(IDL.is_('inil', _zK), MLs.is_('lnil', _zL)), MMp.mk('mnil'),
+                            msnoc(mz(IDL.get('icons', 'itl', _zK), MLs.get('lcons', 'ltl', _zL)), IDL.get('icons', 'ihd', _zK), MLs.get('lcons', 'lhd', _zL))), dec=0)
+il_distinct = _rec_('il_distinct', IdL, B)
+_def_(il_distinct, [_zK], z3.If(IDL.is_('inil', _zK), True, z3.And(z3.Not(mem(IDL.get('icons', 'ihd', _zK), IDL.get('icons', 'itl', _zK))), il_distinct(IDL.get('icons', 'itl', _zK)))))
+pv_ = z3.Const('pv_z', PPat)
+LZ('pm_snoc_len', [pm_, kk, pv_], pm_len(pm_snoc(pm_, kk, pv_)) == 1 + pm_len(pm_), ind=pm_, triggers=[pm_len(pm_snoc(pm_, kk, pv_))], rewrite=True)
+LZ('pm_snoc_values', [pm_, kk, pv_], pm_values(pm_snoc(pm_, kk, pv_)) == PTLs.mk('ptcons', PTR.mk('PyPat', pv_), pm_values(pm_)), ind=pm_,
+   triggers=[pm_values(pm_snoc(pm_, kk, pv_))], rewrite=True)
+LZ('pm_snoc_keys', [pm_, kk, pv_], pm_keys_rev(pm_snoc(pm_, kk, pv_)) == IDL.mk('icons', kk, pm_keys_rev(pm_)), ind=pm_, triggers=[pm_keys_rev(pm_snoc(pm_, kk, pv_))], rewrite=True)
+LZ('pm_snoc_expand', [pm_, kk, pv_], expandmap(pm_snoc(pm_, kk, pv_)) == msnoc(expandmap(pm_), kk, expand(pv_)), ind=pm_, triggers=[expandmap(pm_snoc(pm_, kk, pv_))], rewrite=True)
+LZ('pm_snoc_wf', [pm_, kk, pv_], pmwf(pm_snoc(pm_, kk, pv_)) == z3.And(pmwf(pm_), pwf(pv_)), ind=pm_, triggers=[pmwf(pm_snoc(pm_, kk, pv_))], rewrite=True)
+_zstep = lambda f, val, vars: [[(vars[1], PTLs.get('ptcons', 'pttl', vars[1]))]]
+LZ('pmz_len', [vs__, ptl__], z3.Implies(il_len(vs__) == ptl_len(ptl__), pm_len(pmz(vs__, ptl__)) == il_len(vs__)), ind=vs__, triggers=[pmz(vs__, ptl__)], ih_extra=_zstep,
+   uses=['pm_snoc_len', 'ptl_len_zero', 'il_len_zero'], split_depth=1)
+LZ('pmz_keys', [vs__, ptl__], z3.Implies(il_len(vs__) == ptl_len(ptl__), pm_keys_rev(pmz(vs__, ptl__)) == vs__), ind=vs__, triggers=[pmz(vs__, ptl__)], ih_extra=_zstep,
+   uses=['pm_snoc_keys', 'ptl_len_zero', 'il_len_zero'], split_depth=1)
+LZ('pmz_values', [vs__, ptl__], z3.Implies(z3.And(il_len(vs__) == ptl_len(ptl__), tl_allpat(ex_stack(ptl__))), ex_stack(pm_values(pmz(vs__, ptl__))) == ex_stack(ptl__)), ind=vs__,
+   triggers=[pmz(vs__, ptl__)], ih_extra=_zstep, uses=['pm_snoc_values', 'ptl_len_zero', 'il_len_zero'], split_depth=1)
+LZ('pmz_wf', [vs__, ptl__], z3.Implies(z3.And(ptl_wf(ptl__), tl_allpat(ex_stack(ptl__))), pmwf(pmz(vs__, ptl__))), ind=vs__, triggers=[pmz(vs__, ptl__)], ih_extra=_zstep,
+   uses=['pm_snoc_wf'], split_depth=1)
+LZ('pmz_expand', [vs__, ptl__], z3.Implies(tl_allpat(ex_stack(ptl__)), expandmap(pmz(vs__, ptl__)) == mz(vs__, tl_pats(ex_stack(ptl__)))), ind=vs__, triggers=[pmz(vs__, ptl__)],
+   ih_extra=_zstep, uses=['pm_snoc_expand'], split_depth=1)
+ml2__ = z3.Const('ml2__', ML)
+LZ('mz_snoc', [vs__, ml2__, kk, psi], z3.Implies(il_len(vs__) == ml_len(ml2__), mz(il_snoc(vs__, kk), ml_snoc(ml2__, psi)) == MMp.mk('mcons', kk, psi, mz(vs__, ml2__))), ind=vs__,
+   triggers=[mz(il_snoc(vs__, kk), ml_snoc(ml2__, psi))], ih_extra=lambda f, val, vars: [[(vars[1], MLs.get('lcons', 'ltl', vars[1]))]],
+   uses=['il_len_nonneg', 'ml_len_nonneg'], split_depth=2)
+LZ('mz_rev', [m_], mz(mkeys_rev(m_), mvals_rev(m_)) == m_, ind=m_, triggers=[mz(mkeys_rev(m_), mvals_rev(m_))], uses=['mz_snoc', 'mkeys_rev_len', 'mvals_rev_len'])   # not a rewrite rule: it is used through explicit instances
+LZ('msnoc_distinct', [m_, kk, psi], mdistinct(msnoc(m_, kk, psi)) == z3.And(mdistinct(m_), z3.Not(mhas(m_, kk))), ind=m_, triggers=[mdistinct(msnoc(m_, kk, psi))], uses=['msnoc_has'], split_depth=1)
+LZ('mz_has', [vs__, ml2__, kk], z3.Implies(il_len(vs__) == ml_len(ml2__), mhas(mz(vs__, ml2__), kk) == mem(kk, vs__)), ind=vs__, triggers=[mhas(mz(vs__, ml2__), kk)],
+   ih_extra=lambda f, val, vars: [[(vars[1], MLs.get('lcons', 'ltl', vars[1]))]], uses=['msnoc_has', 'il_len_nonneg', 'ml_len_nonneg'], split_depth=1)
+LZ('mz_distinct', [vs__, ml2__], z3.Implies(z3.And(il_len(vs__) == ml_len(ml2__), il_distinct(vs__)), mdistinct(mz(vs__, ml2__))), ind=vs__, triggers=[mz(vs__, ml2__)],
+   ih_extra=lambda f, val, vars: [[(vars[1], MLs.get('lcons', 'ltl', vars[1]))]], uses=['msnoc_distinct', 'mz_has', 'il_len_nonneg', 'ml_len_nonneg'], split_depth=1)
+for _n in ('ptl_len_zero', 'il_len_zero', 'il_len_nonneg', 'ml_len_nonneg', 'mkeys_rev_len', 'mvals_rev_len', 'msnoc_has', 'msnoc_get', 'pm_values_pats', 'pm_values_allpat', 'pm_keys_rev_m',
+           'pm_len_m', 'ex_stack_lastn', 'ex_stack_dropn', 'ex_stack_len', 'tl_allpat_eq', 'il_take_cat', 'il_drop_cat', 'il_len_cat', 'tl_len_nonneg', 'mlen_nonneg'):
+    ZIPL[_n] = LIB.get(_n) or MAPL.get(_n) or STREAM.get(_n) or PUBL.get(_n)
+LZ('il_distinct_snoc', [vs__, kk], il_distinct(il_snoc(vs__, kk)) == z3.And(il_distinct(vs__), z3.Not(mem(kk, vs__))), ind=vs__, triggers=[il_distinct(il_snoc(vs__, kk))],
+   uses=['mem_snoc'], split_depth=1)
+LZ('mkeys_rev_distinct', [m_], z3.Implies(mdistinct(m_), il_distinct(mkeys_rev(m_))), ind=m_, triggers=[il_distinct(mkeys_rev(m_))], uses=['il_distinct_snoc', 'mem_mkeys_rev'], split_depth=1)
+for _n in ('mem_snoc', 'mem_mkeys_rev'):
+    ZIPL[_n] = LIB.get(_n)
+LZ('il_take_cat_c', [nn__, vs__, rest__], z3.Implies(nn__ == il_len(vs__), il_take(nn__, il_cat(vs__, rest__)) == vs__), nonind=True, triggers=[il_take(nn__, il_cat(vs__, rest__))],
+   crewrite=True, hints=[('il_take_cat', [vs__, rest__])])
+LZ('il_drop_cat_c', [nn__, vs__, rest__], z3.Implies(nn__ == il_len(vs__), il_drop(nn__, il_cat(vs__, rest__)) == rest__), nonind=True, triggers=[il_drop(nn__, il_cat(vs__, rest__))],
+   crewrite=True, hints=[('il_drop_cat', [vs__, rest__])])
+LZ('ptl_wf_lastn', [ptl__, nn__], z3.Implies(ptl_wf(ptl__), ptl_wf(ptl_lastn(ptl__, nn__))), ind=ptl__, triggers=[ptl_lastn(ptl__, nn__)],
+   ih_extra=lambda f, val, vars: [[(vars[1], vars[1] - 1)]], split_depth=1)
